@@ -230,7 +230,48 @@ func runC05(c *Ctx) {
 		nLoops++
 		c.Check("C05-R2", "lock-loop-complete:"+l.Over, l.Header.Instrs[0].Pos(), len(l.EarlyExitsAny(p)) == 0, "a wipe loop in Manager.lock() can be left early")
 	}
-	c.Floor("C05-R2", "wipe loops in lock()", nLoops, 4)
+	c.Floor("C05-R2", "wipe loops in lock()", nLoops, 3)
+	// every scoped manager gets every wipe: inside a loop over the scoped managers, each per-scope wipe (the loops over
+	// the scope's accounts and addresses, the purge of its derived-key cache) is reached in every iteration — no shortcut
+	// on some other state of the scope ("no account loaded, so nothing to clear") may skip it
+	nPerScope := 0
+	all := loopsOf(lock)
+	for _, outer := range all {
+		if outer.Kind == "for" || !strings.Contains(outer.Over, "scopedManagers") {
+			continue
+		}
+		for _, inner := range all {
+			if inner == outer || inner.Kind == "for" || !outer.Blocks[inner.Header] {
+				continue
+			}
+			// directly nested only
+			direct := true
+			for _, mid := range all {
+				if mid != inner && mid != outer && outer.Blocks[mid.Header] && mid.Blocks[inner.Header] {
+					direct = false
+				}
+			}
+			if !direct {
+				continue
+			}
+			nPerScope++
+			h := inner.Header
+			bad := outer.MustPassPerIteration(p, func(i ssa.Instruction) bool { return i.Block() == h })
+			c.Check("C05-R2", "every-scope-gets-wipe:"+inner.Over, h.Instrs[0].Pos(), bad == "",
+				"Manager.lock() can skip the wipe loop over "+inner.Over+" for some scoped manager ("+bad+"): clear-text keys of that scope survive Lock")
+		}
+		for b := range outer.Blocks {
+			for _, ins := range b.Instrs {
+				if call, ok := ins.(*ssa.Call); ok && calleeShort(&call.Call) == "Range" {
+					nPerScope++
+					bad := outer.MustPassPerIteration(p, func(i ssa.Instruction) bool { return i == ssa.Instruction(call) })
+					c.Check("C05-R2", "every-scope-gets-wipe:privKeyCache", call.Pos(), bad == "",
+						"Manager.lock() can skip purging the derived private key cache of some scoped manager ("+bad+")")
+				}
+			}
+		}
+	}
+	c.Floor("C05-R2", "per-scope wipes in lock()", nPerScope, 3)
 	for _, tn := range []string{"managedAddress", "scriptAddress"} {
 		found := false
 		for _, b := range lock.Blocks {
@@ -275,38 +316,67 @@ func runC05(c *Ctx) {
 	}
 
 	// ---------- R3 ----------
-	for _, name := range []string{"Lock", "Close", "ConvertToWatchingOnly"} {
-		fn := p.Func("waddrmgr", "Manager", name)
-		if fn == nil {
-			c.Unresolved("C05-R3", "Manager."+name)
-			continue
-		}
-		q := &PathQuery{Fn: fn, Barrier: isCallNamed("lock")}
-		q.EdgeBarrier = func(from *ssa.BasicBlock, si int) bool {
-			f := edgeFactOf(from, si)
-			if f == nil {
-				return false
-			}
-			// Close is idempotent: already closed -> return
-			if name == "Close" && f.Kind == "true" {
-				return true
-			}
-			// ConvertToWatchingOnly: an already locked / already watching-only manager needs no wipe
-			return name == "ConvertToWatchingOnly" && f.Kind == "true" && (isResultOfCall(f.V, "IsLocked", -1) || isResultOfCall(f.V, "WatchOnly", -1))
-		}
-		q.Target = func(ins ssa.Instruction, via *ssa.BasicBlock) bool {
-			r, ok := ins.(*ssa.Return)
+	// In the mode "unlocked, not watching-only, not closed" every success return of Lock, Close and ConvertToWatchingOnly has
+	// passed lock() — directly or inside a same-package helper that itself always passes it in that mode.
+	{
+		unlockedMode := modeEnv{"p:IsLocked": bFalse, "p:WatchOnly": bFalse, "f:closed": bFalse}
+		lockFn := p.Func("waddrmgr", "Manager", "lock")
+		var alwaysWipes func(g *ssa.Function, env modeEnv, depth int) bool
+		memo := map[string]int{}
+		passes := func(ins ssa.Instruction, env modeEnv, depth int) bool {
+			call, ok := ins.(*ssa.Call)
 			if !ok {
 				return false
 			}
-			k := p.classifyReturn(r, via)
-			return k == retSuccess || k == retNoErr
+			g := call.Call.StaticCallee()
+			if g == nil {
+				return false
+			}
+			if g == lockFn {
+				return true
+			}
+			return g.Pkg != nil && lockFn != nil && g.Pkg == lockFn.Pkg && depth < 3 && alwaysWipes(g, env, depth+1)
 		}
-		var bad ssa.Instruction
-		if hits := q.From(nil); len(hits) > 0 {
-			bad = hits[0].Ins
+		alwaysWipes = func(g *ssa.Function, env modeEnv, depth int) bool {
+			stable := modeEnv{}
+			for k, v := range env {
+				if !strings.HasPrefix(k, "v:") && !strings.HasPrefix(k, "t:") {
+					stable[k] = v
+				}
+			}
+			mk := fnName(g) + "|" + stable.key()
+			if v, ok := memo[mk]; ok {
+				return v == 1
+			}
+			memo[mk] = 0
+			if len(g.Blocks) == 0 || !p.reachSet(g)[lockFn] {
+				return false
+			}
+			mi := &modeInterp{p: p, preds: map[string]bool{"IsLocked": true, "WatchOnly": true}, noDescend: true,
+				containsTarget: func(*ssa.Function) bool { return true },
+				barrier:        func(i ssa.Instruction, e modeEnv) bool { return passes(i, e, depth) },
+				target: func(ins ssa.Instruction, _ modeEnv) bool {
+					r, ok := ins.(*ssa.Return)
+					if !ok {
+						return false
+					}
+					k := p.classifyReturn(r, nil)
+					return k != retError
+				}}
+			ok := mi.reachable(g, stable, 0) == nil
+			if ok {
+				memo[mk] = 1
+			}
+			return ok
 		}
-		c.Check("C05-R3", name+"-reaches-lock", fn.Pos(), bad == nil, "Manager."+name+" can succeed without wiping private material (lock())")
+		for _, name := range []string{"Lock", "Close", "ConvertToWatchingOnly"} {
+			fn := p.Func("waddrmgr", "Manager", name)
+			if fn == nil || lockFn == nil {
+				c.Unresolved("C05-R3", "Manager."+name)
+				continue
+			}
+			c.Check("C05-R3", name+"-reaches-lock", fn.Pos(), alwaysWipes(fn, unlockedMode, 0), "Manager."+name+" can succeed on an unlocked, non-watching-only manager without wiping private material (lock())")
+		}
 	}
 	if ul := p.Func("waddrmgr", "Manager", "Unlock"); ul != nil {
 		q := &PathQuery{Fn: ul, Barrier: isCallNamed("lock")}
